@@ -4,7 +4,8 @@
 From Coq Require Import ZArith List Bool QArith Qcanon.
 From Centro Require Import Gen.ConstsC09 Model.Kalman Spec.Kalman Proofs.KalmanHist Proofs.KalmanAlg Proofs.KalmanGain Proofs.KalmanRefine
   Proofs.KalmanArith Proofs.KalmanInv34 Proofs.KalmanParity Proofs.KalmanAssoc
-  Proofs.KalmanDetBase Proofs.KalmanDetRow Proofs.KalmanDetAlt Proofs.KalmanAdj Proofs.KalmanSym.
+  Proofs.KalmanDetBase Proofs.KalmanDetRow Proofs.KalmanDetAlt Proofs.KalmanAdj Proofs.KalmanSym
+  Proofs.KalmanDetTrans Proofs.KalmanInvFull Proofs.KalmanLite.
 Import ListNotations.
 Open Scope nat_scope.
 
@@ -115,12 +116,12 @@ Print Assumptions C09_init_cov_consts_ordered.
 (* FULL for obs_len = 2.  The gain of the specification (hence, by kalman_refines, of the batched
    code) solves the defining equation of the Kalman gain, K S = P H^T, whenever the innovation
    covariance S = H P H^T + r is non-singular. *)
-Theorem C09_gain_equation : forall (H Pp r : mat) (a b c d : Qc),
+Theorem C09_gain_equation_2 : forall (H Pp r : mat) (a b c d : Qc),
   innovation_cov H Pp r = [[a; b]; [c; d]] -> det1 [[a; b]; [c; d]] <> 0%Qc ->
   Forall (fun row => length row = 2) (mmul Pp (mtrans H)) ->
   mmul (gain H Pp r) (innovation_cov H Pp r) = mmul Pp (mtrans H).
 Proof. exact gain_equation. Qed.
-Print Assumptions C09_gain_equation.
+Print Assumptions C09_gain_equation_2.
 
 (* FULL (velocity model, constants and matrices regenerated from the source).  A new feature:
    observed position, zero velocity, SMALL variance where observed and LARGE where hidden. *)
@@ -140,16 +141,14 @@ Theorem C09_shortcut_ops : forall x y : Qc,
 Proof. exact (fun x y => conj (qmul_eq x y) (conj (qadd_eq x y) (qsub_eq x y))). Qed.
 Print Assumptions C09_shortcut_ops.
 
-(* PARTIAL (sizes 1..4 of all n; the permutation-expansion determinant, cofactors and adjugate of
-   inv_n / det_n / cofactor_n as written): TWO-sided inverse of an arbitrary matrix.  Round 3 proves
-   for every n the right inverse (C09_inv_n_right_inverse) and, for symmetric matrices, the left
-   inverse (C09_inv_n_left_inverse_sym).  Still missing for n >= 5: the left inverse of a
-   NON-symmetric matrix (needs det A^T = det A for the permutation expansion). *)
-Theorem C09_inv_n_correct_partial : forall (A : mat) (n : nat), 1 <= n <= 4 -> length A = n ->
+(* FULL, EVERY size n (round 4; was _partial for n <= 4).  The permutation-expansion determinant,
+   cofactors and adjugate of inv_n / det_n / cofactor_n as written give a TWO-sided inverse of every
+   well-shaped n x n matrix with non-zero determinant. *)
+Theorem C09_inv_n_correct : forall (A : mat) (n : nat), 1 <= n -> length A = n ->
   Forall (fun row => length row = n) A -> det1 A <> 0%Qc ->
   mmul A (inv1 A) = ident n /\ mmul (inv1 A) A = ident n.
-Proof. exact inv_n_correct_upto4. Qed.
-Print Assumptions C09_inv_n_correct_partial.
+Proof. exact inv_n_correct. Qed.
+Print Assumptions C09_inv_n_correct.
 
 (* FULL, all shapes.  The batched product of dot_n is associative and has the unit. *)
 Theorem C09_mmul_assoc : forall (M X S : mat) (m : nat), X <> [] ->
@@ -264,3 +263,53 @@ Theorem C09_gain_equation_every_obs_len : forall (H Pp r : mat) (n : nat),
   mmul (gain H Pp r) S = mmul Pp (mtrans H).
 Proof. exact gain_equation_sym. Qed.
 Print Assumptions C09_gain_equation_every_obs_len.
+
+(* ---------------------------------------------------------------------------------- round 4 *)
+
+(* FULL.  The sign of the inverse permutation, and det A^T = det A for the permutation expansion
+   (sum re-indexed by p |-> p^-1). *)
+Theorem C09_parity_inverse : forall (n : nat) (p : list nat), Permutation.Permutation p (seq 0 n) ->
+  parity (pinv p) = parity p.
+Proof. exact parity_pinv. Qed.
+Print Assumptions C09_parity_inverse.
+
+Theorem C09_det_transpose : forall (n : nat) (M : fmat), ldet n (fun a b => M b a) = ldet n M.
+Proof. exact ldet_transpose. Qed.
+Print Assumptions C09_det_transpose.
+
+Theorem C09_det_n_transpose : forall (A : mat) (n : nat), 1 <= n -> length A = n ->
+  Forall (fun row => length row = n) A -> det1 (mtrans A) = det1 A.
+Proof. exact det1_mtrans. Qed.
+Print Assumptions C09_det_n_transpose.
+
+(* FULL, every obs_len, from det S <> 0 alone (no symmetry, no inverse hypothesis). *)
+Theorem C09_gain_equation : forall (H Pp r : mat) (n : nat),
+  let S := innovation_cov H Pp r in
+  1 <= n -> length S = n -> Forall (fun row => length row = n) S -> det1 S <> 0%Qc ->
+  Forall (fun row => length row = n) (mmul Pp (mtrans H)) ->
+  mmul (gain H Pp r) S = mmul Pp (mtrans H).
+Proof. exact gain_equation_full. Qed.
+Print Assumptions C09_gain_equation.
+
+(* FULL.  kalman_refines specialised to ONE track kept for ANY number of frames (no bound on the
+   history length: the harness's age cap is a cost limit of the exact replay, not of the theorem). *)
+Theorem C09_single_track_any_length : forall (s : kstate) (zs : list (vec * mat * mat)),
+  wf s -> length (svec s) = 1 ->
+  abs (run s (map track_frame zs)) = [fold_left (track_step (tm s) (om s)) zs (nth 0 (abs s) feat0)].
+Proof. exact single_track_any_length. Qed.
+Print Assumptions C09_single_track_any_length.
+
+(* FULL.  The noise_var-free filter used to replay long tracks agrees with kalman_filter on every
+   other field, for whole histories. *)
+Theorem C09_lite_agrees_trace : forall (fs : list frame) (s s' : kstate), core s = core s' ->
+  map core (run_trace_lite s fs) = map core (run_trace s' fs).
+Proof. exact lite_agrees_trace. Qed.
+Print Assumptions C09_lite_agrees_trace.
+
+(* FULL.  KalmanState.predicted_state_vec / predicted_obs_vec, read by callers: A x and H A x of the
+   feature's own state. *)
+Theorem C09_predicted_obs_own : forall (s : kstate) (k : nat), k < length (svec s) ->
+  nth k (predicted_state_vec s) [] = predict_x (tm s) (nth k (svec s) []) /\
+  nth k (predicted_obs_vec s) [] = mvec (om s) (predict_x (tm s) (nth k (svec s) [])).
+Proof. exact predicted_obs_own. Qed.
+Print Assumptions C09_predicted_obs_own.
